@@ -147,8 +147,23 @@ def main():
             procs.append((subprocess.Popen(cmd, cwd=os.path.join(ROOT, cfg["pkg"]), env=env, stdout=log, stderr=subprocess.STDOUT), out, log))
         merged = None
         crashed = []
+        # A shard that does not end is ended: code under test that spins or blocks for
+        # ever (a stalled worker, a read loop that makes no progress) must not hang the
+        # check. The limits are far above anything a check needs on the unchanged
+        # tree (quick tiers take seconds to a minute per shard, thorough tiers have
+        # their own internal budgets of at most 25 minutes).
+        limit = float(os.environ.get("VERIF_HANG_LIMIT_S") or cfg.get("hang_limit_s", {}).get(tier) or (2400 if tier == "quick" else 4 * 3600))
+        deadline = time.time() + limit
         for s, (p, out, log) in enumerate(procs):
-            rc = p.wait()
+            try:
+                rc = p.wait(timeout=max(1.0, deadline - time.time()))
+            except subprocess.TimeoutExpired:
+                p.kill()
+                p.wait()
+                rc = -9
+                log.write("\nvcheck: shard %d did not end within %.0f s and was killed (code under test or harness does not make progress)\n" % (s, limit))
+                if os.path.exists(out):
+                    os.remove(out)
             log.close()
             if not os.path.exists(out):
                 crashed.append((s, rc, log.name))
